@@ -1,5 +1,5 @@
 """C08 (Resize / modifiers) and C09 (Minimize / Invert): spec/Region.tla."""
-from fam_generic import Family, run_family
+from fam_generic import Family, run_family, run_families
 
 
 def RZ(segs, maxlen, slack, stride, mc=True):
@@ -13,7 +13,7 @@ def MN(n, regs, stride, mc=True):
 
 
 RESIZE = Family(
-    "resize", "MC_Region", "Trace_Region", "region", devs=False,
+    "resize", "MC_Region", "Trace_Region", "region", devs=False, case_fam="resize",
     rounds={"quick": [RZ(3, 2, 2, 1), RZ(4, 2, 2, 5, mc=False)],
             "thorough": [RZ(3, 3, 3, 1), RZ(4, 2, 3, 1), RZ(5, 2, 3, 1, mc=False)]},
     owns=lambda v: v["rule"].startswith("resize") or v["rule"].startswith("mod-") or v["rule"] == "panic",
@@ -21,6 +21,19 @@ RESIZE = Family(
                "x every modifier of the five forms with offsets in [-len-Slack, len+Slack]; Region.Resize, Region.Locate, "
                "Modifier.String, AsModifier on the real code; judged against ResizeDen = slice of the spliced coordinate"),
     assumptions=["regions are laid out inside a sequence long enough for every outward extension to stay in range"],
+)
+
+def LC(stride, mc=True):
+    return dict(consts=dict(Batch=40, Stride=stride, Offset=0), mc=mc)
+
+
+LOCATOR = Family(
+    "locator", "MC_Locator", "Trace_Locator", "region", devs="{}", case_fam="locator",
+    rounds={"quick": [LC(1)], "thorough": [LC(1)]},
+    rule_text=("locator clause: 3 feature tables x {linear, circular} x every locator assembled from {selector by key "
+               "(0..3 matches), point, range, complement(point), complement(range), nested complement, every feature, "
+               "bare modifier} x {no modifier, 39 modifiers of the five forms}; gts.AsLocator(string)(record) on the real "
+               "code; each returned region judged against Region!ResizeDen of the region X denotes"),
 )
 
 MINIMIZE = Family(
@@ -35,4 +48,6 @@ MINIMIZE = Family(
 
 
 def run(prop, tier, seed, replay=None):
-    return run_family(RESIZE if prop == "C08" else MINIMIZE, prop, tier, seed, replay)
+    if prop == "C08":
+        return run_families([RESIZE, LOCATOR], prop, tier, seed, replay)
+    return run_family(MINIMIZE, prop, tier, seed, replay)
